@@ -7,7 +7,10 @@ import sys
 sys.dont_write_bytecode = True
 HERE = os.path.dirname(os.path.abspath(__file__))
 sys.path.insert(0, HERE)
-os.environ.setdefault("PYTHONHASHSEED", "0")
+if os.environ.get("PYTHONHASHSEED") != "0":
+    # a run is a pure function of the code and VERIF_SEED: fix the string-hash seed and start over
+    os.environ["PYTHONHASHSEED"] = "0"
+    os.execv(sys.executable, [sys.executable] + sys.argv)
 
 CHECKS = {
     "C01": "c01_link", "C02": "c02_send", "C03": "c03_config", "C04": "c04_routing", "C05": "c05_delivery",
